@@ -741,6 +741,18 @@ where
     }
 }
 
+/// Read-only access to the spline coefficients for the external verification harness.
+#[cfg(ndarray_interp_verif)]
+impl<Sd, D> CubicSplineStrategy<Sd, D>
+where
+    Sd: Data,
+    D: Dimension + RemoveAxis,
+{
+    pub fn verif_coefficients(&self) -> (&Array<Sd::Elem, D>, &Array<Sd::Elem, D>) {
+        (&self.a, &self.b)
+    }
+}
+
 impl<Sd, Sx, D> Interp1DStrategyBuilder<Sd, Sx, D> for CubicSpline<Sd::Elem, D>
 where
     Sd: Data,
